@@ -3,7 +3,7 @@
     [vm_compute] on a concrete witness) and followed by [Print Assumptions].
     Models: Model19.v (gates, entity expansion), Uri19.v (URI resolution); Spec: Spec19.v, Uri19.rfc_resolve. *)
 From XV Require Import Base.XDefs C19.Uri19 C19.Spec19 C19.Model19 C19.Proofs19a C19.Proofs19g C19.Proofs19b
-  C19.Proofs19c C19.Proofs19d C19.Proofs19e C19.ProofsUri19 Gen.GenGates C19.Gates19.
+  C19.Proofs19c C19.Proofs19d C19.Proofs19e C19.Proofs19f C19.ProofsUri19 Gen.GenGates C19.Gates19.
 Local Open Scope N_scope.
 
 (** ** T19_no_fetch (full on the model): for every configuration, resolver, file system and document, every
@@ -23,6 +23,14 @@ Proof.
   rewrite (no_fetch _ _ _ _ _ _ _ H) in N. discriminate.
 Qed.
 Print Assumptions T19_no_fetch_forbidden.
+
+(** ... and the same on a parser with useCachedGrammarInParse, for every content of the grammar pool: the pool lookup
+    (resolveSystemId in scanDocTypeDecl / checkInternalDTD) consults the resolver and builds a source but opens
+    nothing; the external subset is opened only under the same gate.  [run_c c rs fs None = run c rs fs]. *)
+Theorem T19_no_fetch_cached : forall c rs fs uc x k t id,
+  In (EvOpen k t id) (trace (run_c c rs fs uc x)) -> permitted c (has_subset x) k = true.
+Proof. exact no_fetch_cached. Qed.
+Print Assumptions T19_no_fetch_cached.
 
 (** ** T19_resolver_first: with a resolver installed, every default open is immediately preceded by the resolver
     being offered exactly that identifier (with the declaration's base URI) and declining it, and the source
@@ -50,7 +58,7 @@ Print Assumptions T19_resolver_source_used.
     attribute-value expansion) and at most L+1 entity readers are pushed: the (L+1)-th is pushed, the counter
     exceeds the limit, EntityExpansionLimitExceeded ends the parse before anything is read from it. *)
 Theorem T19_limit : forall c rs fs L x, c_limit c = Some L ->
-  (cntE (trace (run c rs fs x)) <= L)%nat /\ (cntP (trace (run c rs fs x)) <= S L)%nat.
+  (cntE (trace (run c rs fs x)) <= L)%nat /\ (cntPc (c_countDtd c) (trace (run c rs fs x)) <= S L)%nat.
 Proof. intros c rs fs L x H. exact (limit_bound c rs fs L H x). Qed.
 Print Assumptions T19_limit.
 
@@ -70,7 +78,7 @@ Print Assumptions T19_limit_per_parse_history.
 (** ... hence T19_limit holds for every parse of every history, with the limit then in force *)
 Theorem T19_limit_every_parse : forall c rs fs p x,
   ps_installed p = true ->
-  (cntE (trace (fst (parse_step c rs fs p x))) <= ps_mgr p)%nat /\ (cntP (trace (fst (parse_step c rs fs p x))) <= S (ps_mgr p))%nat.
+  (cntE (trace (fst (parse_step c rs fs p x))) <= ps_mgr p)%nat /\ (cntPc (c_countDtd c) (trace (fst (parse_step c rs fs p x))) <= S (ps_mgr p))%nat.
 Proof.
   intros c rs fs p x I. rewrite parse_step_verdict, I.
   exact (limit_bound (with_limit c (Some (ps_mgr p))) rs fs (ps_mgr p) eq_refl x).
@@ -80,7 +88,7 @@ Print Assumptions T19_limit_every_parse.
 (* ---- concrete documents for the witnesses below -------------------------------------------------------- *)
 Definition cfgIG (lim : option nat) : cfg :=
   {| c_scanner := IG; c_val := VNever; c_doSchema := false; c_loadSchema := false; c_loadDTD := true;
-     c_disableDefault := false; c_stdUri := false; c_limit := lim |}.
+     c_disableDefault := false; c_stdUri := false; c_limit := lim; c_countDtd := false |}.
 Definition nofs : filesys := fun _ => None.
 Definition nm (i : nat) : str := [99; 48 + N.of_nat i].                     (* "c0", "c1", ... *)
 Definition docsys0 : str := [47; 100; 46; 120; 109; 108].                    (* /d.xml *)
@@ -102,6 +110,18 @@ Theorem T19_limit_dtd_side_refuted : exists c x,
   length (filter (fun e => match e with EvPushDtd _ => true | _ => false end) (trace (run c None nofs x))) = 6%nat.
 Proof. exists (cfgIG (Some 2%nat)), (pe_doc 6). vm_compute. repeat split; reflexivity. Qed.
 Print Assumptions T19_limit_dtd_side_refuted.
+
+(** with the repair (fixes/C19-dtd-scanner-expansion-count.patch, [c_countDtd c = true]) T19_limit above bounds ALL
+    entity readers, those pushed by the DTD scanner included, and the witness is rejected *)
+Theorem T19_limit_repaired : forall c rs fs L x, c_limit c = Some L -> c_countDtd c = true ->
+  (cntPc true (trace (run c rs fs x)) <= S L)%nat.
+Proof. intros c rs fs L x H D. rewrite <- D. exact (proj2 (limit_bound c rs fs L H x)). Qed.
+Print Assumptions T19_limit_repaired.
+Example T19_limit_dtd_side_repaired :
+  first_fatal (trace (run {| c_scanner := IG; c_val := VNever; c_doSchema := false; c_loadSchema := false;
+                             c_loadDTD := true; c_disableDefault := false; c_stdUri := false;
+                             c_limit := Some 2%nat; c_countDtd := true |} None nofs (pe_doc 6))) = Some FLimit.
+Proof. vm_compute. reflexivity. Qed.
 
 (** ** documents within the limit are unaffected -- PARTIAL: checked by computation on the entity-table families
     (flat, chain, binary tree; N expansions with limit N: identical run; limit N-1: rejected); the universal
@@ -179,9 +199,9 @@ Definition fs1 : filesys := fun p => if str_eqb p [47; 109; 46; 100; 116; 100] t
 Example T19_no_fetch_nonvacuous :
   trace (run (cfgIG None) None fs1 ext_doc) = [EvOpen KDtd (TFile [47; 109; 46; 100; 116; 100]) [47; 109; 46; 100; 116; 100]] /\
   trace (run {| c_scanner := IG; c_val := VNever; c_doSchema := false; c_loadSchema := false; c_loadDTD := true;
-                c_disableDefault := true; c_stdUri := false; c_limit := None |} None fs1 ext_doc) = [EvFatal FOpenFailed] /\
+                c_disableDefault := true; c_stdUri := false; c_limit := None; c_countDtd := false |} None fs1 ext_doc) = [EvFatal FOpenFailed] /\
   trace (run {| c_scanner := IG; c_val := VNever; c_doSchema := false; c_loadSchema := false; c_loadDTD := false;
-                c_disableDefault := false; c_stdUri := false; c_limit := None |} None fs1 ext_doc) = [] /\
+                c_disableDefault := false; c_stdUri := false; c_limit := None; c_countDtd := false |} None fs1 ext_doc) = [] /\
   trace (run (cfgIG None) (Some (fun _ _ _ => None)) fs1 ext_doc) =
     [EvResolve KDtd dtdsys docsys0 []; EvOpen KDtd (TFile [47; 109; 46; 100; 116; 100]) [47; 109; 46; 100; 116; 100]].
 Proof. vm_compute. repeat split; reflexivity. Qed.
@@ -220,6 +240,26 @@ Theorem T19_resolve_rfc_xmluri_partial :
       implb (plain_rel r) (match xmluri_resolve base r with Some t => str_eqb t (rfc_resolve base r) | None => false end))
     (refs_over alpha_plain 5)) bases_uri = true.
 Proof. exact xmluri_rfc_agree_partial. Qed.
+(** ** T19_resolve_inherits_authority (full): a relative reference without protocol and host resolved by the model of
+    XMLURL::conglomerateWithBase against a base that has a host takes protocol, user, password, host AND port from
+    the base; in the specification (RFC 2396 5.2 step 4) scheme and authority (userinfo@host:port as one unit) of
+    the result are those of the base whenever the reference has neither. *)
+Theorem T19_resolve_inherits_authority : forall u b r,
+  conglomerate u b = Some r -> u_proto u = None -> u_host u = None -> opt_is_some (u_host b) = true ->
+  u_proto r = u_proto b /\ u_user r = u_user b /\ u_pass r = u_pass b /\ u_host r = u_host b /\ u_port r = u_port b.
+Proof. exact conglomerate_inherits_authority. Qed.
+Print Assumptions T19_resolve_inherits_authority.
+Theorem T19_resolve_rfc_inherits_authority : forall b r,
+  r_scheme r = None -> r_auth r = None ->
+  r_scheme (rfc_resolve_parts b r) = r_scheme b /\ r_auth (rfc_resolve_parts b r) = r_auth b.
+Proof. exact rfc_inherits_authority. Qed.
+Print Assumptions T19_resolve_rfc_inherits_authority.
+Example T19_resolve_inherits_authority_nonvacuous :     (* http://usr:pw@h:8080/d/doc.xml + ../e.dtd *)
+  xmlurl_resolve [104;116;116;112;58;47;47;117;115;114;58;112;119;64;104;58;56;48;56;48;47;100;47;100;111;99;46;120;109;108]
+                 [46;46;47;101;46;100;116;100]
+  = Some [104;116;116;112;58;47;47;117;115;114;58;112;119;64;104;58;56;48;56;48;47;101;46;100;116;100].
+Proof. vm_compute. reflexivity. Qed.
+
 (** ** T19_unescape_once (full): the unescape loop of XMLURL::makeNewStream (find '%', check two hex digits, write
     the value, shift, resume the search AFTER the decoded character) equals the single-pass specification
     [pct_decode] on every input: every %hh is decoded exactly once, a malformed escape is an error in both, and
